@@ -264,11 +264,73 @@ Qed.
 Lemma drops_of_length evs n : length (drops_of evs n) = n.
 Proof. unfold drops_of. now rewrite map_length, seq_length. Qed.
 
+(* ---------------------------------------------------------------- the iterator from which one member is taken *)
+Lemma count_boxed_child_ev_drop k c i : count_ev (is_drop i) (into_child_ev k c) = 0.
+Proof. destruct k; reflexivity. Qed.
+
+Lemma iter_first_events t toks evs i :
+  iter_first t = (Some toks, evs) -> count_ev (is_drop i) evs = occ i (ids t).
+Proof.
+  unfold iter_first. destruct t as [v|b t'|cc ts|k c t']; try (intros H; cbv beta iota in H; injection H as <- <-; match goal with |- _ = occ _ (ids ?t) => exact (drop_t_drops t _) end).
+  destruct t' as [v|b t2|cc ts|k2 c2 t2]; try (intros H; cbv beta iota in H; injection H as <- <-; match goal with |- _ = occ _ (ids ?t) => exact (drop_t_drops t _) end).
+  destruct ts as [|m rest]; intros H; cbv beta iota in H.
+  - inversion H; subst. rewrite count_boxed_child_ev_drop. reflexivity.
+  - pose proof (into_inner_spec m) as Hs. pose proof (into_inner_no_drop m i) as Hn.
+    destruct (into_inner m) as [r e]. simpl in Hs, Hn. subst r. simpl in H. inversion H; subst.
+    rewrite !count_ev_app, count_boxed_child_ev_drop, Hn, drop_i_spec, count_ev_concat, map_map.
+    unfold occ, ids. simpl. rewrite map_app, count_occ_app, ids_concat, count_occ_concat, map_map.
+    simpl. f_equal. apply list_sum_ext. apply Forall_forall. intros x _. apply drop_t_drops.
+Qed.
+
+Lemma iter_first_returned t toks evs :
+  iter_first t = (Some toks, evs) ->
+  toks = match t with TColl _ _ (TCont _ (m :: _)) => flat (spec m) | _ => [] end.
+Proof.
+  unfold iter_first. destruct t as [v|b t'|cc ts|k c t']; try (intros H; cbv beta iota in H; injection H as <- <-; reflexivity).
+  destruct t' as [v|b t2|cc ts|k2 c2 t2]; try (intros H; cbv beta iota in H; injection H as <- <-; reflexivity).
+  destruct ts as [|m rest]; intros H; cbv beta iota in H; [inversion H; reflexivity|].
+  pose proof (into_inner_spec m) as Hs. destruct (into_inner m) as [r e]. simpl in Hs. subst r. simpl in H. inversion H. reflexivity.
+Qed.
+
+Lemma iter_first_defined t : exists toks evs, iter_first t = (Some toks, evs).
+Proof.
+  unfold iter_first. destruct t as [v|b t'|cc ts|k c t']; try (eexists; eexists; reflexivity).
+  destruct t' as [v|b t2|cc ts|k2 c2 t2]; try (eexists; eexists; reflexivity).
+  destruct ts as [|m rest]; [eexists; eexists; reflexivity|].
+  pose proof (into_inner_spec m) as Hs. destruct (into_inner m) as [r e]. simpl in Hs. subst r. simpl. eexists; eexists; reflexivity.
+Qed.
+
+Lemma iter_first_cells t toks evs c :
+  iter_first t = (Some toks, evs) ->
+  count_ev (is_cell c) evs = occ c (cells t) /\ count_ev (is_cache c) evs = occ c (cells t).
+Proof.
+  unfold iter_first. destruct t as [v|b t'|cc ts|k c0 t']; try (intros H; cbv beta iota in H; injection H as <- <-; match goal with |- _ = occ _ (cells ?t) /\ _ => exact (drop_t_cells t _) end).
+  destruct t' as [v|b t2|cc ts|k2 c2 t2]; try (intros H; cbv beta iota in H; injection H as <- <-; match goal with |- _ = occ _ (cells ?t) /\ _ => exact (drop_t_cells t _) end).
+  assert (HC : count_ev (is_cell c) (into_child_ev k c0) = occ c (match k with KBoxed => [c0] | _ => [] end) /\
+               count_ev (is_cache c) (into_child_ev k c0) = occ c (match k with KBoxed => [c0] | _ => [] end)).
+  { unfold occ. destruct k; unfold count_ev; simpl; try (split; reflexivity).
+    destruct (Nat.eqb_spec c c0), (Nat.eq_dec c0 c); simpl; try congruence; split; reflexivity. }
+  destruct HC as [HC1 HC2].
+  destruct ts as [|m rest]; intros H; cbv beta iota in H.
+  - inversion H; subst. unfold occ in *. simpl. rewrite count_occ_app. simpl. rewrite HC1, HC2. split; lia.
+  - pose proof (into_inner_spec m) as Hs. pose proof (into_inner_cells m c) as [Hc1 Hc2].
+    destruct (into_inner m) as [r e]. simpl in Hs, Hc1, Hc2. subst r. simpl in H. inversion H; subst.
+    destruct (drop_i_no_free (spec m) c) as [Hz1 Hz2].
+    rewrite !count_ev_app, HC1, HC2, Hc1, Hc2, Hz1, Hz2, !count_ev_concat, !map_map.
+    unfold occ. simpl. rewrite !count_occ_app, count_occ_concat, map_map.
+    assert (E1 : list_sum (map (fun x => count_ev (is_cell c) (drop_t x)) rest) = list_sum (map (fun x => count_occ Nat.eq_dec (cells x) c) rest))
+      by (apply list_sum_ext, Forall_forall; intros x _; apply drop_t_cells).
+    assert (E2 : list_sum (map (fun x => count_ev (is_cache c) (drop_t x)) rest) = list_sum (map (fun x => count_occ Nat.eq_dec (cells x) c) rest))
+      by (apply list_sum_ext, Forall_forall; intros x _; apply drop_t_cells).
+    rewrite E1, E2. split; lia.
+Qed.
+
 (* the events of a whole path: every payload dropped once per occurrence *)
 Lemma tmodel_events p t w toks evs i :
   tmodel p t w = (Some toks, evs) -> count_ev (is_drop i) evs = occ i (ids t).
 Proof.
   unfold tmodel. destruct p; intros H;
+    try (now apply (iter_first_events _ _ _ _ H));
     try (inversion H; subst; apply drop_t_drops).
   all: try rewrite get_mut_spec in H.
   all: match type of H with context [into_inner ?x] =>
@@ -282,12 +344,13 @@ Lemma tmodel_returned p t w toks evs :
   tmodel p t w = (Some toks, evs) ->
   toks = match p with
          | QDrop | QDropUnw | QTryNewReject => []
-         | QLockIntoInner | QTryNewAccept => expect_vals t None
+         | QLockIntoInner | QTryNewAccept | QIntoIter => expect_vals t None
+         | QIntoIterFirst => match t with TColl _ _ (TCont _ (m :: _)) => flat (spec m) | _ => [] end
          | QGetMut => expect_vals t None ++ expect_vals t w
          | _ => expect_vals t w
          end.
 Proof.
-  unfold tmodel, expect_vals. destruct p; intros H; try (inversion H; reflexivity).
+  unfold tmodel, expect_vals. destruct p; intros H; try (now apply (iter_first_returned _ _ _ H)); try (inversion H; reflexivity).
   all: try rewrite get_mut_spec in H.
   all: match type of H with context [into_inner ?x] =>
          pose proof (into_inner_spec x) as Hs; destruct (into_inner x) as [r e]; simpl in Hs; subst r; simpl in H;
@@ -296,7 +359,7 @@ Qed.
 
 Theorem tmodel_defined p t w : exists toks evs, tmodel p t w = (Some toks, evs).
 Proof.
-  unfold tmodel. destruct p; try (eexists; eexists; reflexivity).
+  unfold tmodel. destruct p; try apply iter_first_defined; try (eexists; eexists; reflexivity).
   all: try rewrite get_mut_spec.
   all: match goal with |- context [into_inner ?x] =>
          pose proof (into_inner_spec x) as Hs; destruct (into_inner x) as [r e]; simpl in Hs; subst r; simpl;
@@ -323,6 +386,7 @@ Theorem tmodel_cells p t w toks evs c :
 Proof.
   intros Hnd H. rewrite <- (occ_nodup _ c Hnd).
   unfold tmodel in H. destruct p;
+    try (now apply (iter_first_cells _ _ _ _ H));
     try (inversion H; subst; apply drop_t_cells).
   all: try rewrite get_mut_spec in H.
   all: match type of H with context [into_inner ?x] =>
